@@ -408,6 +408,8 @@ def run(ck):
     # which symmetry the file is read with: theorems, source tie, stream
     oks, infos = ck.lean_obligations("DS.Props.C07Sym")
     tiesym_ok, tiesym_info = ck.source_tie("DS.Props.SrcCifSym", groups=("cifsym",))
+    # the expansion step (T19): `DS.Cif.expand` IS the transliterated `_expandAsymmetricUnit` under the interface `EauOf`
+    tieexp_ok, tieexp_info = ck.source_tie("DS.Props.SrcCifExpand", groups=("cifsym",))
     ck.coverage["evaluations"] += symsrc_stream(ck, sgl, allstrata, getParser) * (1 if (oks and tiesym_ok) else 1)
     # row phase: model vs reader before the expansion; wider when the source tie or the proofs are broken
     row_words_stream(ck)
@@ -458,7 +460,8 @@ def run(ck):
     ck.tie_verdict(tie_ok, tie_info, "p_cif.py leading_float")
     ck.tie_verdict(tier_ok, tier_info, "p_cif.py atom-site setters, name table, site loop and aniso loop")
     ck.tie_verdict(ties_ok, ties_info, "p_cif.py getSymOp, _symop_constant, symvec and the two regular expressions")
-    ck.tie_verdict(tiesym_ok, tiesym_info, "p_cif.py _parse_space_group_symop_operation_xyz (which symmetry the file is read with), _expandAsymmetricUnit, _parseCifBlock")
+    ck.tie_verdict(tiesym_ok, tiesym_info, "p_cif.py _parse_space_group_symop_operation_xyz (which symmetry the file is read with), _parseCifBlock")
+    ck.tie_verdict(tieexp_ok, tieexp_info, "p_cif.py _expandAsymmetricUnit (images per site, label suffix, tensor rule, displacement-type default)")
     if not oks and not ck.violations:
         ck.fail("lean-build", "Lean obligations of C07 (symmetry source) no longer check: %r" % infos["failed_modules"],
                 {"kind": "proof-obligation", "theorem": infos["failed_modules"], "errors": infos["errors"]}, no_failing_input=True)
